@@ -248,6 +248,16 @@ def run(ctx):
     for s, r in zip(scripts, reals):
         oracle(ctx, s, r)
         W.refused_leaves_no_trace(ctx, s, r, "c05")
+    # the documented EFFECT of the simulation-parameter commands (SETPOWER, SETTA, FAKE_RSSI / FAKE_TOA / FAKE_CI) is on the bursts
+    # forwarded afterwards - judged on what the peer receives, not on the reply alone (generator and oracle shared with C10: the
+    # parameters in force come from this module's reference of the command table applied to the command history)
+    from . import C10 as _C10
+    _bursts = _C10.gen_bursts(ctx.seed)
+    _gi = {tuple(b[0]): (b[1], b[2], b[3]) for b in _bursts}
+    eff = [_C10.make_script(rng, _bursts) for _ in range(40 if ctx.tier == "quick" else 1500)]
+    ereals = SC.run_scripts(ctx, "effect-session", eff)
+    for s, r in zip(eff, ereals):
+        _C10.oracle(ctx, s, r, _gi)
     trxcon_end_to_end(ctx, rng)
     ctx.sample([SC.describe(o) for o in scripts[0][1][1:12]])
     ctx.count("commands", sum(1 for s in scripts for o in s[1] if o[0] == "ctrl"))
